@@ -269,3 +269,34 @@ Fixpoint dev (E : denv) (e : dexp) (c : nat) : option (list (list xq)) :=
   | DAssemble m k => option_map (fun z => d_assemble E (d_blocks E m z)) (dsel_val E k c)
   | DIf t a b => if rcev E t then dev E a c else dev E b c
   end.
+
+(* ------------------------------------------------------------------------------------ *)
+(** * measures/pairwise_significance.py PairwiseSignificance: one column object per displayed column *)
+
+(* what a constructor argument is, by the name of the field / loop variable / parameter it comes from *)
+Inductive lwarg := LSlice | LCol | LAlpha | LOnlyLarger.
+
+Inductive lwexp :=
+| LWValues (args : list lwarg)
+      (* [_ColumnPairwiseSignificance(args..) for col_idx in range(self._slice.shape[1])] *)
+| LWMembers (m : string) (v : lwexp)
+      (* tuple(sig.<m> for sig in v)  /  an object array filled with [sig.<m> for sig in v] *)
+| LWCls (args : list lwarg) (w : lwexp).
+      (* cls(args..).<lazyproperty w>   (classmethod; w read with self = that object) *)
+
+Record lwenv (A : Type) := mkLwenv {
+  lw_ncols : nat;                                     (* self._slice.shape[1] *)
+  (* member m of _ColumnPairwiseSignificance constructed with these arguments for column c *)
+  lw_member : string -> list lwarg -> nat -> A }.
+Arguments lw_ncols {A}. Arguments lw_member {A}.
+
+(* the constructor of PairwiseSignificance is (slice_, alpha, only_larger) *)
+Definition lw_ctor_ok (args : list lwarg) : bool :=
+  match args with [LSlice; LAlpha; LOnlyLarger] => true | _ => false end.
+
+Fixpoint lwev {A} (E : lwenv A) (w : lwexp) : option (list A) :=
+  match w with
+  | LWMembers m (LWValues args) => Some (tab (lw_ncols E) (fun c => lw_member E m args c))
+  | LWCls args k => if lw_ctor_ok args then lwev E k else None
+  | _ => None
+  end.
